@@ -125,6 +125,16 @@ Section K2.
     cases2; red2 E0 E1; kcbv; rewrite ?Hi; ring [(law_i O L) (law_half O L)].
   Qed.
 
+  (* what the SWAP kernel computes, said without matrices: the amplitude at i is p times the amplitude at the index with the two
+     target digits exchanged - i.e. SWAP only RELABELS the two axes (SimulationProductState exchanges the factors the two qubits name
+     instead of touching amplitudes) and the global phase p is all that is left *)
+  Theorem kernel_SWAP_relabels (p : K) :
+    kernel_SWAP O buf p a0 a1 psi i = p * psi (upd (upd i a0 (get i a1)) a1 (get i a0)).
+  Proof.
+    unfold kernel_SWAP, swap_body. norm2. pose proof self2 as Hi.
+    cases2; red2 E0 E1; cbn [upds]; rewrite ?Hi; reflexivity.
+  Qed.
+
   Theorem kernel_ISWAP_sound (p : K) :
     kernel_ISWAP O buf p a0 a1 psi i = apply O (mat_of O [2; 2] (spec_ISwapPow O ii (- ii) p)) [2; 2] [a0; a1] psi i.
   Proof.
